@@ -95,6 +95,8 @@ func (n *node) setBreakOnLine(v bool) {
 }
 
 // receiver stores method receiver object access path.
+// With a nil node, val is the value held by an interface: the receiver of the method
+// is reached from it at each call (see genFunctionWrapper).
 type receiver struct {
 	node  *node         // receiver value for alias and struct types
 	val   reflect.Value // receiver value for interface type and value type
